@@ -54,8 +54,24 @@ TEnd == /\ Ev.ev = "end" /\ Ev.kind = "keys" /\ pieces = << >>
         /\ Ev.history = hist
         /\ UNCHANGED evars
 
+(* ---- sessions typed into the REAL terminal through a pty (Terminal::read_line_raw, term.rs key decoding, the   *)
+(* history file): nothing is observed per key; what is compared is the history file at the end.                   *)
+TBlindKey ==
+  /\ Ev.ev = "bkey" /\ pieces = << >>
+  /\ KeyAction(Ev.key)
+  /\ cur' >= 0 /\ cur' <= Len(IF idx' >= Len(hist') THEN buf' ELSE hist'[idx' + 1])
+(* after an Enter the debugger takes all commands of the submitted line (they are harmless) and a new line starts *)
+TBlindDrain ==
+  /\ Ev.ev = "bdrain"
+  /\ IF pieces # << >>
+     THEN pieces' = << >> /\ buf' = << >> /\ cur' = 0 /\ UNCHANGED << hist, idx, submitted >>
+     ELSE UNCHANGED evars
+TEndPty == /\ Ev.ev = "end" /\ Ev.kind = "pty" /\ pieces = << >>
+           /\ Ev.history = hist /\ ~Ev.panicked
+           /\ UNCHANGED evars
+
 Step(A) == /\ l <= NRec /\ ~taint /\ A /\ l' = l + 1 /\ UNCHANGED << bad, taint >>
-TRegular == Step(TKey) \/ Step(TRead) \/ Step(TEnd)
+TRegular == Step(TKey) \/ Step(TRead) \/ Step(TEnd) \/ Step(TBlindKey) \/ Step(TBlindDrain) \/ Step(TEndPty)
 TResync == /\ l <= NRec /\ ~taint /\ Ev.ev # "init" /\ ~ENABLED TRegular
            /\ bad' = bad \cup { << l, Ev.ev >> } /\ taint' = TRUE /\ l' = l + 1 /\ UNCHANGED evars
 TSkip == /\ l <= NRec /\ taint /\ Ev.ev # "init" /\ l' = l + 1 /\ UNCHANGED << evars, bad, taint >>
